@@ -226,6 +226,8 @@ let spec input obs =
     if obs = "gin-3xx-4xx eff=none" then "OK"
     else if after "PANIC-ESCAPED" obs <> None then "FAIL unrouted.server-panicked " ^ obs   (* a panic came out of Engine.ServeHTTP *)
     else if after "CRASH" obs <> None then "FAIL unrouted.server-died " ^ obs
+    else if after "NO-ANSWER" obs <> None then "FAIL unrouted.no-answer " ^ obs
+    else if Stdlib.List.mem "eff=unreadable" (words obs) then "FAIL unrouted.store-unreadable-after " ^ obs
     else "FAIL unrouted.unexpected-answer " ^ obs
   | ErrCode _ -> "OK"   (* the error table is compared with the model only; the property speaks about requests *)
   | Req (e, q, route, toks) ->
@@ -234,6 +236,8 @@ let spec input obs =
       | _ -> class_of e q route toks in
     (match parse_obs obs with
      | None when after "PANIC-ESCAPED" obs <> None -> Printf.sprintf "FAIL %s.server-panicked %s" cls obs   (* a panic came out of Engine.ServeHTTP: over a socket the client gets no answer at all *)
+     | None when after "NO-ANSWER" obs <> None -> Printf.sprintf "FAIL %s.no-answer %s" cls obs   (* no response within the deadline *)
+     | Some _ when Stdlib.List.mem "eff=unreadable" (words obs) -> Printf.sprintf "FAIL %s.store-unreadable-after %s" cls obs   (* answered, but the store does not answer any more *)
      | None when after "CRASH" obs <> None -> Printf.sprintf "FAIL %s.server-died %s" cls obs   (* the child process serving the request died *)
      | None -> Printf.sprintf "FAIL %s.no-response %s" cls obs
      | Some (_, true) -> Printf.sprintf "FAIL %s.body-not-json %s" cls obs
